@@ -17,7 +17,7 @@ ASSUMPTIONS = [
     "custom salter functions are pure functions of (salt, prefix) as the default one is",
 ]
 DECIDING = ["pairs_checked", "flip_observations"]
-EXHAUSTIVE_NOTE = ("IPv4 with B in 20..32: all 2^(32-B) leading patterns enumerated; "
+EXHAUSTIVE_NOTE = ("IPv4 with B in 20..32 and IPv6 with B in 116..128: all 2^(L-B) leading patterns enumerated; "
                    "width-generic base class: all 2^W inputs for W in 1..10")
 
 
@@ -33,6 +33,10 @@ def cases(ctx):
         cfg = next(ipgen.configs(rng, 1, fam=4, quick=ctx.quick))
         cfg["B"] = B
         yield {"kind": "exh4", "cfg": cfg, "hseed": rng.getrandbits(32)}
+    for i in range(ctx.per_shard(ctx.pick(8, 200))):
+        B = rng.choice(list(range(118, 129)) if ctx.quick else list(range(116, 129)))
+        yield {"kind": "exh6", "cfg": {"fam": 6, "salt": rng.choice(ipgen.SALTS + ["s%d" % rng.getrandbits(20)]), "B": B,
+                                         "salter": rng.choice(ipgen.SALTERS)}, "hseed": rng.getrandbits(32)}
     # exhaustive at small widths through the width-generic base
     nsw = ctx.per_shard(ctx.pick(300, 8000))
     for i in range(nsw):
@@ -67,7 +71,7 @@ def check_case(ctx, case):
     kind = case["kind"]
     if kind == "sampled":
         return _sampled(ctx, case)
-    if kind == "exh4":
+    if kind in ("exh4", "exh6"):
         return _exh4(ctx, case)
     if kind == "smallw":
         return _smallw(ctx, case)
@@ -135,7 +139,7 @@ def _exh4(ctx, case):
 
     cfg = case["cfg"]
     B = cfg["B"]
-    W = 32 - B
+    W = ipgen.width(cfg) - B
     rng = random.Random(case["hseed"])
     anon = ipgen.build(cfg)
     imgs = {}
@@ -148,7 +152,7 @@ def _exh4(ctx, case):
             ctx.violation(dict(case, witness={"a": a, "fa": fa}), "host-bits-altered", "host bits changed %s -> %s" % (a, fa))
             return
         imgs[lead] = fa >> B
-    ctx.count("exhaustive_v4_runs")
+    ctx.count("exhaustive_v%d_runs" % cfg["fam"])
     ctx.count("flip_observations", len(imgs))
     if sorted(imgs.values()) != list(range(1 << W)):
         ctx.violation(case, "not-a-permutation", "leading %d-bit images are not a permutation of range(2^%d)" % (W, W))
@@ -160,9 +164,9 @@ def _exh4(ctx, case):
     else:
         pairs = [(rng.choice(keys), rng.choice(keys)) for _ in range(6000)]
         pairs += [(a, a ^ (1 << j)) for a in keys[:: max(1, len(keys) // 256)] for j in range(W)]
-    if W and not _report_pairs(ctx, case, W, pairs, imgs, "exhaustive-v4 (B=%d)" % B):
+    if W and not _report_pairs(ctx, case, W, pairs, imgs, "exhaustive-v%d (B=%d)" % (cfg["fam"], B)):
         return
-    ctx.distinct(("exh4", cfg["salt"], B, cfg.get("salter"), str(cfg.get("pp")), str(cfg.get("pa"))))
+    ctx.distinct(("exh%d" % cfg["fam"], cfg["salt"], B, cfg.get("salter"), str(cfg.get("pp")), str(cfg.get("pa"))))
     ctx.sample({"kind": "exh4", "cfg": cfg, "leading_bits": W, "exhaustive": True}, cap=8)
 
 
